@@ -59,6 +59,7 @@ type vfScriptConn struct {
 	written    [][]byte
 	closed     int
 	closeErr   error
+	writeHook  func()
 }
 
 func (c *vfScriptConn) Read(p []byte) (int, error) {
@@ -97,6 +98,12 @@ func (c *vfScriptConn) Write(p []byte) (int, error) {
 		}
 	}
 	c.written = append(c.written, append([]byte{}, p...))
+	if c.writeHook != nil {
+		// the bytes are on the wire: the peer may answer (and another goroutine may read that answer) before this call returns
+		h := c.writeHook
+		c.writeHook = nil
+		h()
+	}
 	return n, err
 }
 
@@ -206,10 +213,11 @@ func vfGenConnSteps(t *rapid.T, label string, n int) []vfConnStep {
 }
 
 func TestVerifC15Raw(t *testing.T) {
-	valid := vfValidExchangeBytes()
+	valids := vfValidExchanges()
 	verifkit.Run(t, "C15Raw", verifkit.Spec[vfC15RawCase]{
 		Gen: func(t *rapid.T) vfC15RawCase {
 			c := vfC15RawCase{Server: rapid.Bool().Draw(t, "server"), CloseErr: rapid.IntRange(0, 4).Draw(t, "closeErr") == 0}
+			valid := valids[rapid.IntRange(0, len(valids)-1).Draw(t, "conversation")]
 			gen := func(label string, preface bool) []byte {
 				switch rapid.IntRange(0, 5).Draw(t, label+"-kind") {
 				case 4, 5:
@@ -308,17 +316,38 @@ func TestVerifC15Raw(t *testing.T) {
 }
 
 // vfValidExchangeBytes returns a small valid exchange: [client->server bytes, server->client bytes].
-func vfValidExchangeBytes() [2][]byte {
-	ex := vfExchange{Streams: []vfStreamSpec{{Named: true, ReqCT: "application/grpc", RespCT: "application/grpc",
+func vfValidExchangeBytes() [2][]byte { return vfValidExchanges()[0] }
+
+// vfValidExchanges: the byte streams (client->server, server->client) of a few well-formed conversations - a plain
+// call; a refused stream followed by its retry and a normal call; a call cut off by a graceful GOAWAY with a later one
+// refused; a call reset by the server.
+func vfValidExchanges() [][2][]byte {
+	simple := vfStreamSpec{Named: true, Attempt: 1, ReqCT: "application/grpc", RespCT: "application/grpc",
 		ReqMsgs: []vfMsg{{Flags: 0, Payload: []byte("hello")}}, RespMsgs: []vfMsg{{Flags: 0, Payload: []byte("world")}},
-		ReqFrameSizes: []int{100}, RespFrameSizes: []int{100}, Trailers: true, Order: []bool{true, true, true, true}}}}
-	frames, _ := vfBuildFrames(ex)
-	var out [2][]byte
-	out[0] = append(out[0], clientPreface...)
-	for _, f := range frames {
-		out[f.Dir] = append(out[f.Dir], f.Bytes...)
+		ReqFrameSizes: []int{100}, RespFrameSizes: []int{100}, Trailers: true, Order: []bool{true, true, true, true}}
+	variant := func(name, attempt int, fault string, at int, code uint32) vfStreamSpec {
+		s := simple
+		s.Name, s.Attempt, s.Fault, s.FaultAt, s.RSTCode = name, attempt, fault, at, code
+		return s
 	}
-	return out
+	sched := []int{0, 1, 2, 0, 1, 2, 1, 0, 2, 0, 1, 2}
+	exchanges := []vfExchange{
+		{Streams: []vfStreamSpec{simple}, GoAwayAt: -1},
+		{Streams: []vfStreamSpec{variant(0, 1, "refused", 1, 7), variant(0, 2, "", 0, 0), variant(1, 1, "", 0, 0)}, Schedule: sched, GoAwayAt: -1},
+		{Streams: []vfStreamSpec{variant(0, 1, "", 0, 0), variant(1, 1, "refused", 2, 7)}, Schedule: sched, GoAwayAt: 6, GoAwayLast: 0, GoAwayCode: 0},
+		{Streams: []vfStreamSpec{variant(0, 1, "rst-server", 3, 2), variant(1, 1, "", 0, 0)}, Schedule: sched, GoAwayAt: -1},
+	}
+	var all [][2][]byte
+	for _, ex := range exchanges {
+		frames, _ := vfBuildFrames(ex)
+		var out [2][]byte
+		out[0] = append(out[0], clientPreface...)
+		for _, f := range frames {
+			out[f.Dir] = append(out[f.Dir], f.Bytes...)
+		}
+		all = append(all, out)
+	}
+	return all
 }
 
 // ---- C15b: well-formed multi-stream exchanges ----
@@ -361,6 +390,9 @@ type vfExchange struct {
 	// TimeoutReads: ordinals (mod 16) of Read calls that hand over their bytes together with a timeout error, as a
 	// net.Conn does when a read deadline passes after part of the data arrived; the connection carries on
 	TimeoutReads []int `json:"timeoutReads"`
+	// EagerReply: the peer's next frames are read (by what would be the read loop of the HTTP/2 stack) while the Write
+	// call that carried the frames they answer has not returned yet
+	EagerReply bool `json:"eagerReply"`
 }
 
 type vfAbsFrame struct {
@@ -692,7 +724,9 @@ func vfRunExchange(ex vfExchange, cuts [2][]int) ([]Trace, error) {
 		readDir = 0
 	}
 	readNo := 0
-	flush := func(dir int) error {
+	var eager func()
+	var flush func(dir int) error
+	flush = func(dir int) error {
 		for len(pending[dir]) > 0 {
 			end := len(pending[dir])
 			idx := sort.SearchInts(sortedCuts[dir], offset[dir]+1)
@@ -716,6 +750,9 @@ func vfRunExchange(ex vfExchange, cuts [2][]int) ([]Trace, error) {
 					return verifkit.Violf("conn-not-transparent", "Read returned (%d, %v), want the %d scripted bytes and error %q", n, err, len(chunk), step.Err)
 				}
 			} else {
+				if eager != nil && end == len(pending[dir]) {
+					inner.writeHook, eager = eager, nil
+				}
 				n, err := conn.Write(chunk)
 				if err != nil || n != len(chunk) {
 					return verifkit.Violf("conn-not-transparent", "Write returned (%d, %v) for %d bytes", n, err, len(chunk))
@@ -726,22 +763,36 @@ func vfRunExchange(ex vfExchange, cuts [2][]int) ([]Trace, error) {
 		}
 		return nil
 	}
-	pending[0] = append(pending[0], clientPreface...)
-	cur := 0
+	// consecutive frames of one direction form a run; runs alternate
+	type run struct {
+		dir   int
+		bytes []byte
+	}
+	runs := []run{{0, append([]byte{}, clientPreface...)}}
 	for _, f := range frames {
-		if f.Dir != cur {
-			if err := flush(cur); err != nil {
-				return nil, err
-			}
-			cur = f.Dir
+		if f.Dir != runs[len(runs)-1].dir {
+			runs = append(runs, run{dir: f.Dir})
 		}
-		pending[f.Dir] = append(pending[f.Dir], f.Bytes...)
+		runs[len(runs)-1].bytes = append(runs[len(runs)-1].bytes, f.Bytes...)
 	}
-	if err := flush(cur); err != nil {
-		return nil, err
-	}
-	if err := flush(1 - cur); err != nil {
-		return nil, err
+	var eagerErr error
+	for i := 0; i < len(runs); i++ {
+		r := runs[i]
+		pending[r.dir] = append(pending[r.dir], r.bytes...)
+		if ex.EagerReply && r.dir != readDir && i+1 < len(runs) {
+			next := runs[i+1]
+			i++ // consumed inside the last Write call of this run
+			eager = func() {
+				pending[next.dir] = append(pending[next.dir], next.bytes...)
+				eagerErr = flush(next.dir)
+			}
+		}
+		if err := flush(r.dir); err != nil {
+			return nil, err
+		}
+		if eagerErr != nil {
+			return nil, eagerErr
+		}
 	}
 	if vfBeforeClose != nil {
 		vfBeforeClose()
@@ -1145,6 +1196,7 @@ func vfGenExchange(t *rapid.T) vfExchange {
 			ex.Cuts[d] = append(ex.Cuts[d], rapid.IntRange(1, off[d]-1).Draw(t, "randcut"))
 		}
 	}
+	ex.EagerReply = rapid.IntRange(0, 3).Draw(t, "eagerReply") == 0
 	if rapid.IntRange(0, 2).Draw(t, "timeoutReads") == 0 {
 		for i, k := 0, rapid.IntRange(1, 6).Draw(t, "ntimeouts"); i < k; i++ {
 			ex.TimeoutReads = append(ex.TimeoutReads, rapid.IntRange(0, 15).Draw(t, "timeoutRead"))
@@ -1170,6 +1222,9 @@ func FuzzVerifC15Conn(f *testing.F) {
 	valid := vfValidExchangeBytes()
 	f.Add(valid[0], valid[1], uint16(7), true)
 	f.Add(valid[0], valid[1], uint16(1), false)
+	for i, v := range vfValidExchanges()[1:] {
+		f.Add(v[0], v[1], uint16(5+i), i%2 == 0)
+	}
 	f.Add([]byte(clientPreface), []byte{0, 0, 0, 4, 0, 0, 0, 0, 0}, uint16(3), true)
 	f.Add([]byte{0, 0, 5, 1, 4, 0, 0, 0, 1, 0x82, 0x86, 0x84, 0x41, 0x8a}, []byte{0, 0, 4, 3, 0, 0, 0, 0, 1, 0, 0, 0, 7}, uint16(2), false)
 	f.Fuzz(func(t *testing.T, c2s, s2c []byte, chunk uint16, server bool) {
